@@ -4,7 +4,7 @@
    bound on a new bond is the truncation rule of C10 (Trunc/Select.v).  Statements only. *)
 From Coq Require Import List Arith ZArith QArith.
 From PTN Require Import Tree.RTree Tree.Nav Tree.UpdatePath Tree.CachePath Tree.Enum Tree.EnumProofs
-     Sched.TDVP Sched.TDVPProofs Sched.TDVPMore Sched.TDVPFresh Sched.TDVPBounded Sched.TDVPUniversal Trunc.Select Trunc.SelectProofs.
+     Sched.TDVP Sched.TDVPProofs Sched.TDVPMore Sched.TDVPFresh Sched.TDVPBounded Sched.TDVPUniversal Sched.TDVPFreshU Trunc.Select Trunc.SelectProofs.
 Import ListNotations.
 Local Close Scope Q_scope.
 
@@ -58,6 +58,12 @@ Theorem C07_schedule_ok_bounded_9 : forall t, In t (trees_upto 9) -> 2 <= size t
   exists tr, trace2s t = Some tr /\ sched_ok t tr.
 Proof. intros t H1 H2. exact (proj2 (proj2 (cache_fresh_bounded_9 t H1 H2))). Qed.
 Print Assumptions C07_schedule_ok_bounded_9.
+
+(* ... and the UNIVERSAL statement (every tree with unique identifiers; Sched/TDVPFreshU.v) *)
+Theorem C07_schedule_ok : forall t, NoDup (ids t) -> 2 <= size t ->
+  exists tr, trace2s t = Some tr /\ sched_ok t tr.
+Proof. exact trace2s_sched_ok. Qed.
+Print Assumptions C07_schedule_ok.
 
 (* ---- the step is a palindrome of (object, signed factor) on EVERY tree ----------------------- *)
 Theorem C07_palindrome : forall t tr, trace2s t = Some tr -> objs tr = rev (objs tr).
